@@ -110,6 +110,21 @@ static int can_slot_be_imm(JanetSlot s, int8_t *out) {
     return can_be_imm(s.constant, out);
 }
 
+/* Get the slot the reduced result is accumulated in. The hinted target may be one of the
+ * operands, as in (set x (+ a b x)) or (set x (< a x b)). It must not be overwritten while
+ * operands from index `start` on are still to be read, so use a fresh slot in that case. */
+static JanetSlot reduce_target(JanetFopts opts, JanetSlot *args, int32_t start) {
+    JanetSlot t = janetc_gettarget(opts);
+    for (int32_t i = start; i < janet_v_count(args); i++) {
+        if (args[i].envindex < 0 &&
+                args[i].index == t.index &&
+                !(args[i].flags & (JANET_SLOT_CONSTANT | JANET_SLOT_REF))) {
+            return janetc_farslot(opts.compiler);
+        }
+    }
+    return t;
+}
+
 /* Emit a series of instructions instead of a function call to a math op */
 static JanetSlot opreduce(
     JanetFopts opts,
@@ -135,7 +150,7 @@ static JanetSlot opreduce(
         }
         return t;
     }
-    t = janetc_gettarget(opts);
+    t = reduce_target(opts, args, 2);
     if (opim && can_slot_be_imm(args[1], &imm)) {
         janetc_emit_ssi(c, opim, t, args[0], imm, 1);
     } else {
@@ -315,7 +330,7 @@ static JanetSlot compreduce(
                ? janetc_cslot(janet_wrap_false())
                : janetc_cslot(janet_wrap_true());
     }
-    t = janetc_gettarget(opts);
+    t = reduce_target(opts, args, 1);
     for (i = 1; i < len; i++) {
         if (opim && can_slot_be_imm(args[i], &imm)) {
             janetc_emit_ssi(c, opim, t, args[i - 1], imm, 1);
